@@ -62,7 +62,8 @@ def transliterate(mod):
     imports = []
     for frm, syms in m['imports']:
         for s in syms:
-            nm, ns = V1_TO_V2_IMPORT.get((frm, s), ('SNMPv2-SMI' if frm in ('RFC1155-SMI', 'RFC1065-SMI') else frm, s))
+            nm, ns = V1_TO_V2_IMPORT.get((frm, s)) or (smiv1ref.TABLE.get(frm, {}).get(s) if frm in ('RFC1213-MIB', 'RFC1158-MIB') else None) \
+                or ('SNMPv2-SMI' if frm in ('RFC1155-SMI', 'RFC1065-SMI') else frm, s)
             hit = [c for c in imports if c[0] == nm]
             if hit:
                 if ns not in hit[0][1]:
